@@ -483,8 +483,12 @@ func tConcat(gg *ggraph, rt *rapid.T) bool {
 	ins := []string{a.name}
 	out := cloneInts(a.shape)
 	k := rapid.IntRange(1, 3).Draw(rt, "catN")
-	if rapid.IntRange(0, 39).Draw(rt, "wideConcat") == 0 {
-		k = rapid.SampledFrom([]int{17, 20, 33, 40}).Draw(rt, "catWide") // far more inputs than usual
+	wideOdds := 39
+	if gg.opts.weightOps {
+		wideOdds = 7 // concurrency workloads: per-width lazily built tables are only racy on first use
+	}
+	if rapid.IntRange(0, wideOdds).Draw(rt, "wideConcat") == 0 {
+		k = rapid.IntRange(17, 90).Draw(rt, "catWide") // far more inputs than usual
 		gg.feat("wide-concat")
 	}
 	for i := 1; i < k; i++ {
